@@ -6,6 +6,7 @@ import (
 	"context"
 	"fmt"
 	"sort"
+	"strings"
 	"sync"
 	"testing"
 	"time"
@@ -33,7 +34,11 @@ type c19Out struct {
 
 func c19Name(i uint64) string { return fmt.Sprintf("vif%d", i) }
 
-const c19Patience = 10 * time.Second
+const c19Patience = 5 * time.Second
+
+// c19Blocked counts runs in which the watcher got stuck; after a few of them the remaining
+// scripts are not run (each would cost the full patience again; the verdict is already decided).
+var c19Blocked int
 
 // c19Run performs the script on a fresh real Watcher whose watch hook executes the notify
 // commands, and returns what every Watch call and every receive burst observed.
@@ -84,6 +89,10 @@ func c19Run(evs []c19Ev) (outs []c19Out, trouble string) {
 		}
 		ended = true
 		close(cmdC)
+		if strings.Contains(trouble, "blocked") {
+			c19Blocked++
+			return // the hook goroutine is stuck inside notify: Watch cannot return
+		}
 		select {
 		case r := <-running:
 			if r.panicked {
@@ -186,7 +195,7 @@ func c19RenderSet(set map[uint64][]uint64, order []uint64) string {
 }
 
 func c19Emit(out *verifh.Out, id string, evs []c19Ev, tags []string) {
-	if !out.Wants(id) {
+	if !out.Wants(id) || c19Blocked >= 3 {
 		return
 	}
 	outs, trouble := c19Run(evs)
